@@ -207,3 +207,56 @@ Example C03_ex_decoder_run :
   end.
 Proof. vm_compute. split; reflexivity. Qed.
 
+(* ================================================================ [stream/lnk6] LINKED blocks and dictionaries: blk_contract DISCHARGED
+   (delimited trailing section; Proofs/BlkInstLinked.v, BlkInstLinkedFrame.v, BlkInstLinkedExamples.v)
+   The block compressor is [blk_of orc] for an oracle [orc : nat -> lcall] of stream calls (call n of the frame's
+   LZ4_compress_fast_continue / LZ4_compress_HC_continue sequence: result of the STREAM MODEL, source bytes, decoder-side history H);
+   it answers only when the block is the oracle's source and H is a tail of the history FrameC offers (dictionary ++ previous
+   content, last 64 KB), and only byte strings (guard).  No hypothesis on the block compressor is left; what remains assumed is
+     forall n, lcall_ok (orc n)        (stream call n decodes strictly with its own H)
+   which follows from the premises of the C11 per-call theorems of each family (the C03_linked_premise theorems below): stream invariant +
+   [hist_inv] / [hhist_invd] / [hhist_inv] of the state after the call's prelude w.r.t. H.  That premise is lz4frame.c's address
+   choreography (tmpIn inside tmpBuff, LZ4F_localSaveDict, stableSrc), which Model.FrameC abstracts to "the last 64 KB". *)
+From LZ4V Require Import Model.Mem Model.Fast Model.FastApi Model.FastStream Model.HcMidStream Model.HcTabStream Model.HcOptStream.
+From LZ4V Require Import Proofs.FastStreamProofs Proofs.FastStreamHist Proofs.HcMidStreamProofs Proofs.HcMidStreamHist Proofs.HcTabStreamProofs.
+From LZ4V Require Import Proofs.BlkInstLinked Proofs.BlkInstLinkedFrame Proofs.BlkInstLinkedExamples.
+
+Theorem C03_roundtrip_linked_discharged :
+  forall orc, (forall n, lcall_ok (orc n)) -> C03_body (blk_of orc).
+Proof. exact c03_linked. Qed.
+Print Assumptions C03_roundtrip_linked_discharged.
+
+(* the premise, per model family: exactly the premise of the family's C11 per-call theorem *)
+Theorem C03_linked_premise_fast : forall o, fcall_ok o -> lcall_ok (lcall_fast o).
+Proof. exact lcall_fast_ok. Qed.
+Print Assumptions C03_linked_premise_fast.
+Theorem C03_linked_premise_hc_mid : forall o, hcall_ok o -> lcall_ok (lcall_mid o).
+Proof. exact lcall_mid_ok. Qed.
+Print Assumptions C03_linked_premise_hc_mid.
+Theorem C03_linked_premise_hc_opt : forall o, ocall_ok o -> lcall_ok (lcall_opt o).
+Proof. exact lcall_opt_ok. Qed.
+Print Assumptions C03_linked_premise_hc_opt.
+
+Theorem C03_roundtrip_linked_fast : forall orc, (forall n, fcall_ok (orc n)) -> C03_body (blk_fast orc).
+Proof. exact c03_linked_fast. Qed.
+Print Assumptions C03_roundtrip_linked_fast.
+Theorem C03_roundtrip_linked_hc_mid : forall orc, (forall n, hcall_ok (orc n)) -> C03_body (blk_mid orc).
+Proof. exact c03_linked_mid. Qed.
+Print Assumptions C03_roundtrip_linked_hc_mid.
+Theorem C03_roundtrip_linked_hc_opt : forall orc, (forall n, ocall_ok (orc n)) -> C03_body (blk_opt orc).
+Proof. exact c03_linked_opt. Qed.
+Print Assumptions C03_roundtrip_linked_hc_opt.
+
+(* [C03_body blk] is the conclusion of C03_lossless for that compressor *)
+Theorem C03_body_is_C03_lossless : forall blk, blk_contract spec_decode blk -> blk_bytes blk -> C03_body blk.
+Proof. exact c03_body_of. Qed.
+Print Assumptions C03_body_is_C03_lossless.
+
+(* an oracle meeting the premise (LZ4_loadDict + two LZ4_compress_fast_continue calls of Model.FastStream), and the linked-block
+   frame with that dictionary Model.FrameC produces from it: 141 bytes of content in a 98-byte frame *)
+Example C03_linked_nonvacuous :
+  (forall n, fcall_ok (ex_lorc n)) /\
+  ex_lsession = Some (ex_lframe, FastStreamExamples.ex_b1 ++ FastStreamExamples.ex_b2) /\ length ex_lframe = 98%nat /\
+  uncompressed_only_if_independent (Some ex_lprefs) ex_lops.
+Proof. exact (conj ex_lorc_ok (conj (proj1 ex_lsession_val) (conj (proj2 ex_lsession_val) ex_lunc))). Qed.
+(* ================================================================ end of [stream/lnk6] *)
